@@ -39,16 +39,32 @@ public:
 struct Resp : public Response { using Response::Response; using Response::receive_header; };
 
 struct Gen { std::string wire, body, hval; int status; bool chunked; };
+// header names in three spellings (lookups are case-insensitive; the sorted index and the lookup must agree on the order)
+static std::string spell(const std::string& n, int how) { std::string r = n; for (auto& c : r) c = how == 0 ? c : how == 1 ? (char)tolower(c) : (char)toupper(c); return r; }
 static Gen gen() {
     Gen g; g.status = 200 + rnd() % 5; g.chunked = rnd() % 2; g.hval = "v" + std::to_string(rnd() % 100000);
     size_t bl = rnd() % 3 == 0 ? 0 : rnd() % 60; for (size_t i = 0; i < bl; ++i) g.body.push_back('a' + (i * 7 + bl) % 26);
-    g.wire = "HTTP/1.1 " + std::to_string(g.status) + " OK\r\nX-Val: " + g.hval + "\r\n";
-    int extra = rnd() % 3; for (int i = 0; i < extra; ++i) g.wire += "X-E" + std::to_string(i) + ": e\r\n";
+    g.wire = "HTTP/1.1 " + std::to_string(g.status) + " OK\r\n" + spell("X-Val", rnd() % 3) + ": " + g.hval + "\r\n";
+    // a few more headers with mixed spellings, so that the framing headers sit at different places of the sorted index
+    static const char* extra[] = {"Accept-Ranges", "Date", "ETag", "Server", "Age", "Via", "Warning", "Link", "Allow", "Range"};
+    int ne = rnd() % 5; for (int i = 0; i < ne; ++i) g.wire += spell(extra[rnd() % 10], rnd() % 3) + ": e" + std::to_string(i) + "\r\n";
+    std::string framing;
     if (g.chunked) {
-        g.wire += "Transfer-Encoding: chunked\r\n\r\n"; size_t p = 0;
-        while (p < g.body.size()) { size_t c = 1 + rnd() % 20; if (c > g.body.size() - p) c = g.body.size() - p; char hx[16]; snprintf(hx, sizeof hx, "%zx", c); g.wire += std::string(hx) + "\r\n" + g.body.substr(p, c) + "\r\n"; p += c; }
+        framing = spell("Transfer-Encoding", rnd() % 3) + ": chunked\r\n";
+    } else framing = spell("Content-Length", rnd() % 3) + ": " + std::to_string(g.body.size()) + "\r\n";
+    g.wire += framing;
+    int ne2 = rnd() % 3; for (int i = 0; i < ne2; ++i) g.wire += spell(extra[rnd() % 10], rnd() % 3) + ": f" + std::to_string(i) + "\r\n";
+    g.wire += "\r\n";
+    if (g.chunked) {
+        size_t p = 0;
+        while (p < g.body.size()) {
+            size_t c = 1 + rnd() % 20; if (c > g.body.size() - p) c = g.body.size() - p; char hx[32];
+            int style = rnd() % 4;      // RFC 7230 4.1: chunk-size is 1*HEXDIG (either case, leading zeros allowed), optionally followed by chunk extensions
+            if (style == 0) snprintf(hx, sizeof hx, "%zx", c); else if (style == 1) snprintf(hx, sizeof hx, "%zX", c); else if (style == 2) snprintf(hx, sizeof hx, "%04zx", c); else snprintf(hx, sizeof hx, "%zx;ext=%d", c, (int)(rnd() % 10));
+            g.wire += std::string(hx) + "\r\n" + g.body.substr(p, c) + "\r\n"; p += c;
+        }
         g.wire += "0\r\n\r\n";
-    } else g.wire += "Content-Length: " + std::to_string(g.body.size()) + "\r\n\r\n" + g.body;
+    } else g.wire += g.body;
     return g;
 }
 static const std::string NEXT = "HTTP/1.1 204 No Content\r\nX-Seq: 2\r\nContent-Length: 0\r\n\r\n";
